@@ -277,5 +277,5 @@ Accepted ==
     IN IF d = Len(Rec) THEN TRUE
        ELSE Print(<<"TRACE NOT ACCEPTED: consumed", d - 1, "of", Len(Rec) - 1>>, FALSE)
 
-ErrAlias == [line |-> l - 1, why |-> IF bad.p # "" THEN bad.why ELSE bad2.why, event |-> Rec[l - 1].ev, inflight |-> inflight, allowed |-> allowed]
+ErrAlias == [line |-> l - 1, why |-> IF bad.p # "" THEN bad.why ELSE bad2.why, why2 |-> bad2.why, event |-> Rec[l - 1].ev, inflight |-> inflight, allowed |-> allowed]
 ===================================================================================
